@@ -958,7 +958,11 @@ var atoms = []string{
 }
 
 func genString(r *rand.Rand) (string, string) {
-	switch r.Intn(10) {
+	switch r.Intn(11) {
+	case 10:
+		// a string that starts like a number (a path part or a value a planner might print bare when it "looks numeric")
+		d := []string{"0", "1", "12", "007", "1.5", "-1", "1e3", "0x1f"}[r.Intn(8)]
+		return d + atoms[r.Intn(len(atoms))], "digits+atom"
 	case 0:
 		return atoms[r.Intn(len(atoms))], "atom"
 	case 1, 2:
